@@ -292,7 +292,17 @@ def r02h(ctx):
     relay(ctx, "R02h", "layered tracer: a duplicate end point is cut from path, depths and directions with the same slice, at either end (= R18i)", "C18", c18.r18i, "R18i", kind="N")
 
 
+def r02i(ctx):
+    """`directions exchanged and reversed`: the received direction of A->B is minus the emitted direction of B->A only if the direct path
+    keeps the hemisphere it was launched in (sign(cos theta0)) and a turned-over path arrives going down: C01's R01e, reported here too."""
+    from . import c01
+    from ._cross import relay
+    relay(ctx, "R02i", "gradient tracer: the vertical sense of the received direction follows the launch for the direct path and is downward for turned-over paths (= R01e)",
+          "C01", c01.r01e, "R01e", kind="N")
+
+
 def run(ctx):
+    ctx.guard(r02i)
     ctx.guard(r02h)
     ctx.guard(r02g)
     ctx.guard(r02e)
